@@ -111,6 +111,17 @@ func (s sortedResources) Less(i, j int) bool {
 		v := s.col[i].Get(r)
 		v2 := s.col[j].Get(r)
 
+		// A wrapped struct returns a nil nullable value without its type
+		// (a SoftResource returns a typed nil pointer, handled below).
+		// nil comes before non-nil.
+		if v == nil || v2 == nil {
+			if v == nil && v2 == nil {
+				continue
+			}
+
+			return (v == nil) != inverse
+		}
+
 		// Here we return true if v < v2.
 		// The "!= inverse" part acts as a XOR operation so that
 		// the opposite boolean is returned when inverse sorting
